@@ -44,7 +44,7 @@ DEVIATIONS = [("SearchPostFilter", "TRUE", "the code as it is: global k-NN, tena
 # ----------------------------------------------------------------------------------------------
 def model_check(tier):
     """-> (summary, [(run name, TlcResult, note)])   (runs in a worker thread: the Check object is not touched here)"""
-    depth = 3 if tier == "quick" else 4
+    depth = 4
     out, runs = [], []
 
     def dev(d):
@@ -53,9 +53,12 @@ def model_check(tier):
     with ThreadPoolExecutor(5) as ex:
         main = ex.submit(lambda: tlc("Tenancy", consts=dict(MC, MaxOps=depth), workers=6, timeout=1500, xmx="8g"))
         devs = list(ex.map(dev, DEVIATIONS))
+        three = tlc("Tenancy", consts=dict(MC, NT=3, MaxOps=3), workers=6, timeout=2400, xmx="8g") if tier == "thorough" else None
         main = main.result()
     runs.append(("Tenancy model check: intended protocol, every sequence of %d requests of 2 tenants" % depth, main, None))
     out.append({"variant": "intended protocol", "violated": None, "distinct_states": main.distinct})
+    if three:
+        runs.append(("Tenancy model check: intended protocol, every sequence of 3 requests of 3 tenants", three, None))
     for (name, val, what), r in zip(DEVIATIONS, devs):
         if not r.violation:
             raise ToolError("Tenancy: deviation %s = %s violates no invariant (model has no teeth)" % (name, val))
@@ -273,7 +276,11 @@ class Scenario:
         did = d.get("doc_id", 0)
         return {"id": did if 0 <= did < 2 ** 31 else -1, "v": v, "m": m, "odd": odd + (1 if v == -1 else 0), "rk": rk}
 
-    def observe(self, r, creq, rec):
+    def n_answers(self, creq):
+        """a BulkSearch stream with the same query twice gives two search observations"""
+        return len(creq["items"]) if creq["rpc"] == "BulkSearch" else 1
+
+    def observe(self, r, creq, rec, item=0):
         o = {"st": rec["status"], "n": 0, "tf": 0, "docs": [], "bad": 0, "u": []}
         resp = rec.get("resp") or {}
         rpc = r["rpc"]
@@ -319,14 +326,11 @@ class Scenario:
                 rs = resp.get("responses") or []
                 if len(rs) != len(creq["items"]) or resp.get("stream_end") != "clean":
                     o["bad"] += 1
-                shape = lambda x: (x["status"], len((x.get("resp") or {}).get("results") or []), (x.get("resp") or {}).get("total_found"))
-                if any(shape(x) != shape(rs[0]) for x in rs[1:]):
-                    o["bad"] += 1           # the same query twice in one stream, two different answers
-                if rs:
-                    o["st"] = rs[0]["status"]
-                    resp = rs[0].get("resp") or {}
+                if item < len(rs):
+                    o["st"] = rs[item]["status"]
+                    resp = rs[item].get("resp") or {}
                 else:
-                    resp = {}
+                    o["st"], resp = "MISSING", {}
             res = resp.get("results") or []
             o["docs"] = [self.doc(x) for x in res]
             o["n"], o["tf"] = len(res), int(resp.get("total_found", 0))
@@ -429,12 +433,13 @@ class Scenario:
                 if cen[t] is None or (has2 and scen[1] is None):
                     raise ToolError("scenario %d: census of tenant %d not answered at step %d" % (self.si, t, n))
                 cq = self.creqs[n][0]
-                o = self.observe(r, cq, rec) if own else dict(o0, st=rec["status"])
-                o2 = self.observe(r, cq, srec) if (own and srec is not None) else o0
                 if own and srec is None:
                     has2 = False
-                evs.append({"ev": "req", "n": n, "own": own, "r": r, "o": o, "o2": o2, "has2": has2, "cen": cen[t],
-                            "cen2": scen[1] if has2 else c0})
+                for item in range(self.n_answers(cq) if own else 1):
+                    o = self.observe(r, cq, rec, item) if own else dict(o0, st=rec["status"])
+                    o2 = self.observe(r, cq, srec, item) if (own and srec is not None) else o0
+                    evs.append({"ev": "req", "n": n, "item": item, "own": own, "r": r, "o": o, "o2": o2, "has2": has2, "cen": cen[t],
+                                "cen2": scen[1] if has2 else c0})
             out[t] = evs
         return out
 
